@@ -10,6 +10,8 @@ REALS = ("ValueType is modelled by exact reals (type R): every 'equals its defin
          "the size and growth of IEEE rounding error is NOT decided by this check")
 
 UNITS = {
+    "window_serde": dict(tpl="window_serde.rs.tpl", doc="Window's hand-written Deserialize checks + snapshot round trip"),
+    "ma_laws": dict(tpl="ma_laws.rs.tpl", doc="C15 laws over the SMA/WMA definitions and the EMA recurrence; MovingAverage trait facts for SMA/WMA/EMA"),
     "converters": dict(tpl="converters.rs.tpl", doc="methods::{CollapseTimeframe<Candle>, Renko, RenkoOutput}"),
     "ind_rsi": dict(tpl="ind_rsi.rs.tpl", doc="indicators::RelativeStrengthIndex (generic in the moving-average constructor)"),
     "ind_channels": dict(tpl="ind_channels.rs.tpl", doc="indicators::{DonchianChannel, PriceChannelStrategy, BollingerBands}"),
@@ -264,6 +266,26 @@ PROPS["C18"] = dict(
            "(NaN/inf included) by loop-free Kani harnesses. The bit-precise tr_close identity and the text round trip of Source run in the thorough tier."),
     assumptions=[REALS + " for the arithmetic identities (float + on volumes is not associative; the lemma is the ideal-arithmetic reading)",
                  "MA text forms (MA::from_str) are not covered"],
+)
+
+PROPS["C15"] = dict(
+    verus=["ma_laws", "sma", "wma", "ema"],
+    claim=("Lemmas over the definitions the code is tied to by C02/C03: SMA and WMA (weights (i+1)/(n(n+1)/2), non-negative, summing to 1) are "
+           "affine-equivariant (any a, b, negative a included), range-preserving and additive (superposition) for every length; the EMA recurrence is "
+           "affine-equivariant, range-preserving (0 < alpha <= 1) and additive step by step, which carries over to DMA/TMA/RMA/WSMA by composition. "
+           "The trait-level facts generic indicators rely on (MovingAverage::convex / within) are proved for SMA, WMA and EMA."),
+    assumptions=[REALS, "SWMA, TRIMA, HMA, LinReg, SMM, Vidya, VWMA, Conv: no law lemmas yet (HMA/TRIMA follow by composition of the WMA/SMA lemmas but that step is not machine-checked)",
+                 "MA enum dispatch (MA::init) is not under contract"],
+)
+PROPS["C13"] = dict(
+    verus=["window_serde", "window"],
+    forbid_in_src=[(r"serde\(\s*skip", "every field of the derived impls is serialized")],
+    claim=("Window's hand-written Deserialize is extracted (serde glue and error-text construction dropped) and verified: an oversized buffer or an "
+           "oldest-index outside the buffer is rejected with Err exactly, never a panic (from_parts's assertions are discharged by the two checks), and "
+           "accepted data yields a well-formed window with the same buffer, index and abstract sequence; window_snapshot_roundtrip proves "
+           "serialize-then-deserialize restores the same sequence. All outputs of a method depend on inv-state only (C02-C04), so equal state gives equal futures."),
+    assumptions=["serde and serde_derive are trusted; derived impls are assumed to serialize every field (backed by a scan for #[serde(skip...)])",
+                 "SMM's hand-written Deserialize (re-sort) is not under contract", "bit-identity of restored floats is serde's"],
 )
 
 NOT_BUILT = {}
